@@ -459,7 +459,7 @@ class BuiltinsMixin:
         if name == 'append':
             I.effect('list-write', lst, node)
             v = pos[0] if pos else TOP()
-            if lst.items is not None and I.cond == 0:
+            if lst.items is not None and I.weak == 0:
                 lst.items.append(v)
             else:
                 I.list_extend(lst, LIST([v]))
@@ -474,7 +474,7 @@ class BuiltinsMixin:
         if name == 'insert':
             I.effect('list-write', lst, node)
             if lst.items is not None and pos and pos[0].has_const() and \
-                    I.cond == 0:
+                    I.weak == 0:
                 lst.items.insert(pos[0].c, pos[1])
             else:
                 I.list_extend(lst, LIST([pos[1] if len(pos) > 1 else TOP()]))
@@ -484,7 +484,7 @@ class BuiltinsMixin:
             if name == 'pop':
                 if lst.items:
                     r = lst.items[-1]
-                    if I.cond == 0 and (not pos):
+                    if I.weak == 0 and (not pos):
                         lst.items.pop()
                     else:
                         el = join_all(lst.items)
@@ -494,7 +494,7 @@ class BuiltinsMixin:
                 return lst.elem if lst.elem is not None else TOP()
             if name in ('sort', 'reverse') and lst.items is not None:
                 el = join_all(lst.items) if lst.items else None
-                if name == 'reverse' and I.cond == 0:
+                if name == 'reverse' and I.weak == 0:
                     lst.items.reverse()
                 else:
                     n = len(lst.items)
@@ -514,7 +514,7 @@ class BuiltinsMixin:
             src = pos[0] if pos else None
             if src is not None and src.k == 'dict':
                 for k_, v in src.keys.items():
-                    if I.cond > 0 and k_ in d.keys:
+                    if I.weak > 0 and k_ in d.keys:
                         d.keys[k_] = join(d.keys[k_], v)
                     else:
                         d.keys[k_] = v
